@@ -1,4 +1,5 @@
 import Mdsort.Proofs.Header
+import Mdsort.Proofs.HeaderCond
 
 /-!
 # C10 - header conditions see headers the way a mail reader does
@@ -7,8 +8,9 @@ import Mdsort.Proofs.Header
 `message_get_header`, `unfoldheader`, `decodeheader`); `Spec.*` reads the message
 line by line (Spec/Message.lean).  What POSIX ERE matching does is the platform
 library's business: the value handed to `regexec` is what these theorems fix, for
-every message; the evaluator part (which occurrence supplies the captures, the
-regcomp flags) is in Props/C03.lean / Model/Eval.lean.
+every message.  `C10_header_cond` is the evaluator part (the two loops of
+`expr_eval_header`): which occurrence decides and supplies the captures, for every regex
+engine; `C10_date_header` the same for `date header`.
 -/
 
 namespace Mdsort.Props
@@ -41,5 +43,152 @@ theorem C10_lookup (m : Bytes) (fs : List (Bytes × Bytes)) (b : Bytes) (name : 
 
 /-- The flags every pattern is compiled with (table regenerated from expr.c). -/
 theorem C10_regflags : Gen.regcompBaseFlags = ["REG_EXTENDED", "REG_NEWLINE"] := by decide
+
+/-! ## The condition as a whole: `header { names } /pattern/`
+
+`Spec.headerCands fs names` lists the values looked at, names in the order configured and
+for each name its occurrences in file order; `Spec.firstNonNomatch` is the first of them on
+which the regex engine answers anything but "no match".  `env.rx` is an arbitrary function. -/
+
+/-- What is in the candidate list: `(k, v)` with `k` a configured name and `v` the decoded
+logical value of a field whose name equals `k` case-insensitively. -/
+theorem C10_header_cands_mem (fs : List (Bytes × Bytes)) (names : List Bytes) (k v : Bytes) :
+    (k, v) ∈ Spec.headerCands fs names ↔
+      k ∈ names ∧ ∃ f ∈ fs, Spec.nameEq f.1 k = true ∧ v = Spec.logical f.2 :=
+  Proofs.mem_headerCands fs names k v
+
+/-- What "first" means: everything before it is a "no match", it is not. -/
+theorem C10_first_candidate (rx : Bytes → RxRes) (cands : List (Bytes × Bytes)) :
+    (Spec.firstNonNomatch rx cands = none ↔ ∀ c ∈ cands, rx c.2 = .nomatch) ∧
+    (∀ c, Spec.firstNonNomatch rx cands = some c →
+      rx c.2 ≠ .nomatch ∧ ∃ pre post, cands = pre ++ c :: post ∧ ∀ x ∈ pre, rx x.2 = .nomatch) :=
+  ⟨Proofs.firstNonNomatch_none rx cands, fun c => Proofs.firstNonNomatch_some rx cands c⟩
+
+/-- A header condition on a well-formed message, for every regex engine, every list of names,
+every part index and every state: no candidate answers → no match, state unchanged; otherwise
+the first candidate that answers decides: a regex error is an error (state unchanged), a match
+appends exactly one entry - type header, this line and part, the captures of that value (after
+the `l`/`u` flags), the name and value in a dry run - and changes nothing else.  It never
+errors on its own (`matches_append` cannot fail for a header entry). -/
+theorem C10_header_cond (env : Env) (root : Msg) (m : Bytes) (fs : List (Bytes × Bytes)) (b : Bytes)
+    (h : Spec.read m = some (fs, b)) (lno : Nat) (names : List Bytes) (p : Pat) (part : Nat) (st : St) :
+    eval env root (.header lno names p) part (parseMessage m) st =
+      match Spec.firstNonNomatch (env.rx p) (Spec.headerCands fs names) with
+      | none => (.nomatch, st)
+      | some (k, v) =>
+        match env.rx p v with
+        | .nomatch => (.nomatch, st)      -- excluded by `C10_first_candidate`
+        | .error => (.error, st)
+        | .ok groups =>
+          (.match, { st with ml := st.ml ++ [Spec.headerEntry env.dryrun lno part p k v groups] }) :=
+  Proofs.eval_header_spec env root m fs b h lno names p part st
+
+/-- It matches iff some candidate matches and no candidate before it is a regex error. -/
+theorem C10_header_cond_iff (env : Env) (root : Msg) (m : Bytes) (fs : List (Bytes × Bytes)) (b : Bytes)
+    (h : Spec.read m = some (fs, b)) (lno : Nat) (names : List Bytes) (p : Pat) (part : Nat) (st : St) :
+    (eval env root (.header lno names p) part (parseMessage m) st).1 = .match ↔
+      ∃ pre c post g, Spec.headerCands fs names = pre ++ c :: post ∧ env.rx p c.2 = .ok g ∧
+        ∀ x ∈ pre, env.rx p x.2 ≠ .error :=
+  Proofs.eval_header_match_iff env root m fs b h lno names p part st
+
+/-- No match iff no occurrence of any listed name matches; error iff the first candidate that
+is not a "no match" is a regex error; the state only changes on a match. -/
+theorem C10_header_cond_other (env : Env) (root : Msg) (m : Bytes) (fs : List (Bytes × Bytes)) (b : Bytes)
+    (h : Spec.read m = some (fs, b)) (lno : Nat) (names : List Bytes) (p : Pat) (part : Nat) (st : St) :
+    ((eval env root (.header lno names p) part (parseMessage m) st).1 = .nomatch ↔
+      ∀ c ∈ Spec.headerCands fs names, env.rx p c.2 = .nomatch) ∧
+    ((eval env root (.header lno names p) part (parseMessage m) st).1 = .error ↔
+      ∃ pre c post, Spec.headerCands fs names = pre ++ c :: post ∧ env.rx p c.2 = .error ∧
+        ∀ x ∈ pre, env.rx p x.2 = .nomatch) ∧
+    ((eval env root (.header lno names p) part (parseMessage m) st).1 ≠ .match →
+      (eval env root (.header lno names p) part (parseMessage m) st).2 = st) :=
+  ⟨Proofs.eval_header_nomatch_iff env root m fs b h lno names p part st,
+   Proofs.eval_header_error_iff env root m fs b h lno names p part st,
+   Proofs.eval_header_state env root m fs b h lno names p part st⟩
+
+/-- `matches_append` cannot fail for an entry whose type is not flagged `EXPR_FLAG_PATH` in
+the table generated from `expr_alloc`; header (and date) entries are not. -/
+theorem C10_append_nonpath (env : Env) (ml : MatchList) (mh : Match) (hp : mh.ty.isPath = false) :
+    (matchesAppend env ml mh).2 = false :=
+  Proofs.matchesAppend_nonpath env ml mh hp
+
+/-- `date header < age` / `> age`: the decoded logical value of the FIRST `Date:` field is
+parsed; no such field = no match; unparsable = error; then the age test; the `.*` pattern on
+the text supplies the entry (for every `strptime`, zone table and regex engine). -/
+theorem C10_date_header (env : Env) (root : Msg) (m : Bytes) (fs : List (Bytes × Bytes)) (b : Bytes)
+    (h : Spec.read m = some (fs, b)) (lno : Nat) (cmp : DateCmp) (age : Nat) (part : Nat) (st : St) :
+    eval env root (.date lno .header cmp age) part (parseMessage m) st =
+      match (Spec.headerValues fs (ofString "Date")).head? with
+      | none => (.nomatch, st)
+      | some d =>
+        match timeParse env.strptime env.zoneName d with
+        | none => (.error, st)
+        | some t =>
+          if dateMatches cmp age env.now t then
+            match env.rx { src := [46, 42] } d with
+            | .nomatch => (.nomatch, st)
+            | .error => (.error, st)
+            | .ok groups => (.match, { st with ml := st.ml ++ [Spec.dateEntry env.dryrun lno part d groups] })
+          else (.nomatch, st) :=
+  Proofs.eval_date_header_spec env root m fs b h lno cmp age part st
+
+/-! Non-vacuity: the message `B: b\nA: =?utf-8?Q?a?=\nb: x\n\nhi`, names `a` then `b`, a regex
+engine that matches exactly the value `a` (capturing it) and errs on `x`. -/
+
+def C10_sample : Bytes := ofString "B: b\nA: =?utf-8?Q?a?=\nb: x\n\nhi"
+
+def C10_sampleRx : Pat → Bytes → RxRes := fun _ v =>
+  if v == [97] then .ok [some (0, 1)] else if v == [120] then .error else .nomatch
+
+example :
+    Spec.read C10_sample =
+      some ([(ofString "B", ofString "b"), (ofString "A", ofString "=?utf-8?Q?a?="), (ofString "b", ofString "x")],
+        ofString "hi") ∧
+    Spec.headerCands
+      [(ofString "B", ofString "b"), (ofString "A", ofString "=?utf-8?Q?a?="), (ofString "b", ofString "x")]
+      [ofString "a", ofString "b"] =
+        [(ofString "a", ofString "a"), (ofString "b", ofString "b"), (ofString "b", ofString "x")] ∧
+    -- names `a, b`: the `A:` field decides, although `B:` comes first in the file and `b: x` errs
+    Spec.firstNonNomatch (C10_sampleRx {src := []})
+      [(ofString "a", ofString "a"), (ofString "b", ofString "b"), (ofString "b", ofString "x")] =
+        some (ofString "a", ofString "a") ∧
+    -- names `b` only: `B: b` is no match, then `b: x` is the regex error
+    Spec.firstNonNomatch (C10_sampleRx {src := []}) [(ofString "b", ofString "b"), (ofString "b", ofString "x")] =
+        some (ofString "b", ofString "x") ∧
+    (Spec.headerEntry true 7 0 {src := []} (ofString "a") (ofString "a") [some (0, 1)]).subs =
+        [{ str := [97], off := some (0, 1) }] := by
+  decide +kernel
+
+def C10_sampleEnv (dry : Bool) : Env :=
+  { rx := C10_sampleRx, command := fun _ => 0, isDir := fun _ => false, now := 0, strptime := fun _ => none,
+    zoneName := fun _ => none, fileTime := fun _ => none, dryrun := dry, path := [] }
+
+def C10_sampleFields : List (Bytes × Bytes) :=
+  [(ofString "B", ofString "b"), (ofString "A", ofString "=?utf-8?Q?a?="), (ofString "b", ofString "x")]
+
+/-- The theorem applied: in a dry run, from any state, `header { "a" "b" } /.../` on the sample
+matches and appends one entry carrying the capture `a`, the name `a` and the value `a`;
+`header { "b" }` is an error and leaves the state alone. -/
+example (root : Msg) (st : St) :
+    eval (C10_sampleEnv true) root (.header 7 [ofString "a", ofString "b"] { src := [] }) 0 (parseMessage C10_sample) st =
+      (.match, { st with ml := st.ml ++ [{ ty := .header, lno := 7, part := 0, pat := some { src := [] },
+                                           subs := [{ str := [97], off := some (0, 1) }],
+                                           key := some [97], val := some [97] }] }) ∧
+    eval (C10_sampleEnv true) root (.header 7 [ofString "b"] { src := [] }) 0 (parseMessage C10_sample) st =
+      (.error, st) := by
+  have h : Spec.read C10_sample = some (C10_sampleFields, ofString "hi") := by decide +kernel
+  have h1 : Spec.firstNonNomatch (C10_sampleRx { src := [] }) (Spec.headerCands C10_sampleFields [ofString "a", ofString "b"])
+      = some ([97], [97]) := by decide +kernel
+  have h2 : Spec.firstNonNomatch (C10_sampleRx { src := [] }) (Spec.headerCands C10_sampleFields [ofString "b"])
+      = some ([98], [120]) := by decide +kernel
+  constructor
+  · rw [C10_header_cond _ root C10_sample _ _ h]
+    show (match Spec.firstNonNomatch (C10_sampleRx { src := [] }) _ with | none => _ | some (k, v) => _) = _
+    rw [h1]
+    rfl
+  · rw [C10_header_cond _ root C10_sample _ _ h]
+    show (match Spec.firstNonNomatch (C10_sampleRx { src := [] }) _ with | none => _ | some (k, v) => _) = _
+    rw [h2]
+    rfl
 
 end Mdsort.Props
